@@ -140,6 +140,13 @@ def main():  # noqa: C901, PLR0915
     ok = (not mc["ok"]) and "ImplMatchesDecl is violated" in mc["out"]
     print(("ok   " if ok else "FAIL ") + "MC_Solve with the state indexer of the current period violates ImplMatchesDecl")
     good &= ok
+    # ---- the same two repaired defects put back into the whole-forward-loop machine (spec/MC_Panel.tla)
+    for cfg, inv, what in (("MC_Panel_neg_d3.cfg", "DecisionsAdmissible", "the dense arg-max indexed by the agent number (D3)"),
+                           ("MC_Panel_neg_d2.cfg", "SolutionIsBellman", "the state indexer of the current period (D2)")):
+        mc = tlc.model_check("MC_Panel", cfg=cfg, workers=4)
+        ok = (not mc["ok"]) and f"Invariant {inv} is violated" in mc["out"]
+        print(("ok   " if ok else "FAIL ") + f"MC_Panel with {what} violates {inv}")
+        good &= ok
     print("selftest", "passed" if good else "FAILED")
     return 0 if good else 1
 
